@@ -810,7 +810,7 @@ def _sig_sinks(bad):
 
 def _must_fail(cfg, invariant):
     """no vacuity: a specification whose switch is broken must violate the invariant that speaks about it"""
-    r = run_tlc('Logging', cfg, timeout=300)
+    r = run_tlc('Logging', cfg, timeout=300, workers=1)
     if r.violated != ('invariant', invariant):
         raise MachineryError(f'{cfg} must violate {invariant}, TLC says {r.violated or r.error or "no violation"}')
     return r
@@ -835,17 +835,25 @@ def run(chk):
     import time as _t
     _t0 = _t.time()
     stage = {}
+    cpu = {}
+
+    def mark(name):
+        import resource
+        ru = resource.getrusage(resource.RUSAGE_CHILDREN)
+        stage[name] = round(_t.time() - _t0, 1)
+        cpu[name] = round(ru.ru_utime + ru.ru_stime, 1)
     run_parallel([(lambda m=m: sany(m)) for m in ('Logging', 'LogRotation', 'Gen_Logging', 'Trace_Logging',
                                                   'Gen_LogRotation', 'Trace_LogRotation')], width=6)
     # 1 everything TLC does without the code, side by side: design checks (the specification's own properties, incl.
     #   a configuration that must fail) and the emission of the behaviours to replay
     tier = 'quick' if quick else 'thorough'
     gen = lambda cfg, **kw: (lambda: emit_behaviours('Gen_Logging', cfg, maximal_only=False, timeout=1500, **kw))
+    nw = 2 if quick else None       # small models side by side: few workers each
     jobs = {
-        'mc': lambda: model_check('Logging', f'MC_Logging_{tier}.cfg', timeout=900),
-        'mc_rot': lambda: model_check('LogRotation', 'MC_LogRotation.cfg', timeout=300),
-        'mc_sinks': lambda: model_check('Logging', f'MC_Logging_sinks_{tier}.cfg', timeout=1500),
-        'mc_days': lambda: model_check('Logging', f'MC_Logging_days_{tier}.cfg', timeout=1500),
+        'mc': lambda: model_check('Logging', f'MC_Logging_{tier}.cfg', timeout=900, workers=nw),
+        'mc_rot': lambda: model_check('LogRotation', 'MC_LogRotation.cfg', timeout=300, workers=nw),
+        'mc_sinks': lambda: model_check('Logging', f'MC_Logging_sinks_{tier}.cfg', timeout=1500, workers=nw),
+        'mc_days': lambda: model_check('Logging', f'MC_Logging_days_{tier}.cfg', timeout=1500, workers=nw),
         'mustfail': lambda: _must_fail('MC_Logging_mustfail_comlog.cfg', 'ComlogNeverInMainFile'),
         'gen': gen(f'Gen_Logging_{tier}.cfg'),
         'gen_sinks': gen(f'Gen_Logging_sinks_{tier}.cfg'),
@@ -862,7 +870,7 @@ def run(chk):
     tlc = dict(zip(jobs, run_parallel(list(jobs.values()), width=8)))
     for k, r in tlc.items():
         chk.add_tlc(r[0] if isinstance(r, tuple) else r)
-    stage['design+emission'] = round(_t.time() - _t0, 1)
+    mark('design+emission')
 
     # 2 spec -> code, routing
     behs = tlc['gen'][1]
@@ -887,7 +895,7 @@ def run(chk):
             chk.violation(sig, {'behaviour': acts, **bad})
     if behs:
         chk.sample({'routing_behaviour': behs[len(behs) // 2]})
-    stage['replay'] = round(_t.time() - _t0, 1)
+    mark('replay')
 
     # 2b spec -> code, local sinks
     sbehs = []
@@ -908,7 +916,7 @@ def run(chk):
     chk.notes['sink_behaviours_not_reproduced'] = nbad
     if sbehs:
         chk.sample({'sink_behaviour': sbehs[len(sbehs) // 2]})
-    stage['replay_sinks'] = round(_t.time() - _t0, 1)
+    mark('replay_sinks')
 
     # 3 code -> spec, routing and local sinks
     n = 300 if quick else 3000
@@ -954,7 +962,7 @@ def run(chk):
     chk.sample({'routing_trace_prefix': traces[0][:4]})
     chk.sample({'sink_trace_prefix': straces[0][:5]})
 
-    stage['random'] = round(_t.time() - _t0, 1)
+    mark('random')
     # 3b concurrent connections: requests in different threads, disconnect outside the dispatcher lock,
     #    every source line of logging.py / dispatcher.py a possible preemption point
     jobs = []
@@ -987,7 +995,7 @@ def run(chk):
                           {'conc': corigin[i][0], 'choices': corigin[i][1], 'trace': ctraces[i], 'failed_at': l})
     chk.notes['concurrent_schedules'] = len(ctraces)
 
-    stage['conc'] = round(_t.time() - _t0, 1)
+    mark('conc')
     # 4 rotation: spec -> code cases, judged by the trace spec
     behs = tlc['gen_rot'][1]
     cases = {}
@@ -1035,8 +1043,9 @@ def run(chk):
                            'foreign_after': 'after' in c['foreign']},
                           {'case': c, 'trace': traces[i], 'failed_at': l})
     chk.sample({'rotation_trace': traces[len(traces) // 3]})
-    stage['rotation'] = round(_t.time() - _t0, 1)
+    mark('rotation')
     chk.notes['wall_until_end_of_stage'] = stage
+    chk.notes['cpu_of_children_until_end_of_stage'] = cpu
     chk.exhaustive = False
 
 
